@@ -42,6 +42,7 @@ type shape struct {
 	preCancel bool // ctx cancelled before Shutdown is called
 	syncToo   bool // an extra synchronous handler on a
 	pubCancel int  // publishes use a context: 1 = cancelled before the publish, 2 = cancelled by a task at an explored point
+	shards    int  // 0: outer and nested event types share a routing shard; 1: nested type in another shard; 2: the same with the roles of the two types swapped
 	twice     bool // after the first Shutdown returned (whatever it returned) and the bus went idle, publish again and call Shutdown with a live context
 }
 
@@ -69,6 +70,12 @@ func (in *inst) Body() {
 		bus = eventbus.New()
 	}
 	A, B := bp.Types[0], bp.Types[1]
+	switch s.shards {
+	case 1:
+		B = bp.Types[2]
+	case 2:
+		A, B = bp.Types[2], bp.Types[0]
+	}
 	mk := func(hid int, nest bool) func(context.Context, int) {
 		return func(_ context.Context, id int) {
 			in.rec.Add("enter", hid, id, "")
@@ -395,6 +402,10 @@ func shapes(thorough bool) []shape {
 		{name: "wait/2pub-2handlers", pubs: 2, twoH: true},
 		{name: "wait/nested", pubs: 1, nested: true},
 		{name: "wait/2pub-nested", pubs: 2, nested: true},
+		{name: "wait/nested-other-shard", pubs: 1, nested: true, shards: 1},
+		{name: "wait/nested-other-shard-reversed", pubs: 1, nested: true, shards: 2},
+		{name: "shutdown/nested-other-shard", pubs: 1, nested: true, shutdown: true, shards: 1},
+		{name: "shutdown/nested-other-shard-reversed", pubs: 1, nested: true, shutdown: true, shards: 2},
 		{name: "wait/other-publisher", pubs: 1, other: 1},
 		{name: "wait/two-waiters", pubs: 1, waiters: 1, nested: true},
 		{name: "wait/sync+async", pubs: 2, syncToo: true},
